@@ -417,6 +417,8 @@ class Engine:
         n = M.sizeof(rty)
         if is_sym(p):
             p = s.sym_ptr(st, p)
+        if n > 1 and isinstance(p, Ptr) and p.o % (n if n <= 8 else 8) and rty[0] != 'struct':
+            raise Violation('ub', 'misaligned load of %d bytes at offset %d of %s' % (n, p.o, st.mem.allocs[p.a].tag if p.a in st.mem.allocs else p))
         v, exact = st.mem.load_raw(p, n)
         k = rty[0]
         if v is UNDEF:
@@ -460,6 +462,8 @@ class Engine:
         n = s.M.sizeof(ty)
         if is_sym(p):
             p = s.sym_ptr(st, p)
+        if n > 1 and isinstance(p, Ptr) and p.o % (n if n <= 8 else 8):
+            raise Violation('ub', 'misaligned store of %d bytes at offset %d of %s' % (n, p.o, st.mem.allocs[p.a].tag if p.a in st.mem.allocs else p))
         if is_sym(v) and z3.is_bool(v):
             v = bvw(v, 8 * n)
         st.mem.store(p, n, v)
@@ -909,8 +913,8 @@ class Engine:
     def cstr(s, st, p):
         if not isinstance(p, Ptr):
             return '?'
-        key = (p.a, p.o)
         a = st.mem.allocs[p.a]
+        key = (a.tag, p.o)
         if a.kind == 'const' and key in s.strcache:
             return s.strcache[key]
         out = bytearray()
@@ -1642,6 +1646,21 @@ def _getstack(s, st, a, ins):
     return 0
 
 
+@builtin('@cmi_logger_info', '@cmi_logger_warning', '@cmi_logger_user')
+def _lognoop(s, st, a, ins):
+    return None
+
+
+@builtin('@cmi_logger_fatal')
+def _logfatal(s, st, a, ins):
+    raise Violation('abort', 'cmb_logger_fatal: ' + s.cstr(st, a[3]))
+
+
+@builtin('@cmi_logger_error')
+def _logerror(s, st, a, ins):
+    raise Violation('abort', 'cmb_logger_error (thread exit): ' + s.cstr(st, a[3]))
+
+
 # ---- the coroutine context switch: contract established by the asm->SMT check (E3) ----
 @builtin('@cmi_coroutine_context_switch')
 def _ctx_switch(s, st, a, ins):
@@ -1713,10 +1732,23 @@ def _symf(s, st, a, ins):
 
 @builtin('@sym_choice')
 def _symchoice(s, st, a, ins):
-    v = s.fresh(st, s.cstr(st, a[1]), 64)
+    # a choice of scenario structure: forked eagerly into its n concrete values
+    name = s.cstr(st, a[1])
     n = a[0]
-    s.assume(st, z3.ULT(v, bvw(n, 64)))
-    return v
+    if not isinstance(n, int):
+        n = s.concretize(st, bvw(n, 64), 'choice count')
+    if n <= 0:
+        raise PathEnd()
+    dst = ins[1] if ins is not None else None
+    for k in range(n - 1, 0, -1):
+        st2 = st.fork()
+        st2.syms.append((name, z3.BitVecVal(k, 64), 'bv'))
+        if dst:
+            st2.stack[-1].regs[dst] = k
+        s.work.append(st2)
+        s.nforks += 1
+    st.syms.append((name, z3.BitVecVal(0, 64), 'bv'))
+    return 0
 
 
 @builtin('@sym_range')
